@@ -85,7 +85,19 @@ def run_name(name):
             S.problem(site + " accidental kind", "no sharp for a net lowering of %d" % -n, red)
         if n == 0:
             S.count("reduce_net_zero")
-    S.trans(6)
+    # second pass, reverse order: every answer must be the same whatever was asked before on this
+    # name (a memo filled by one function and read by another would show up here)
+    again = (notes.reduce_accidentals(name), notes.remove_redundant_accidentals(name), notes.diminish(name),
+             notes.augment(name), notes.note_to_int(name), notes.is_valid_note(name))
+    first = (red, rra, r, None, got, v)
+    for label, a, b in (("reduce_accidentals", again[0], first[0]), ("remove_redundant_accidentals", again[1], first[1]),
+                        ("diminish", again[2], first[2]), ("note_to_int", again[4], first[4]), ("is_valid_note", again[5], first[5])):
+        if a != b or type(a) is not type(b):
+            S.problem("%s(%r) asked again after the other five functions" % (label, name), b, a)
+    e = notes.is_enharmonic(name, name)
+    if e is not True:
+        S.problem("is_enharmonic(%r, %r) after the single-name functions" % (name, name), True, e)
+    S.trans(13)
     S.count("names")
     if not P.homogeneous(name):
         S.count("names_mixing_sharps_and_flats")
